@@ -875,6 +875,50 @@ func forkShapes() []wInput {
 	return res
 }
 
+// a replica that merged keeps pulling without pushing: its head is a merge commit (possibly with edits on top) when
+// the remote moves on (or does not move at all)
+func repullShapes() []wInput {
+	var res []wInput
+	for a1 := 1; a1 <= 2; a1++ {
+		for b1 := 1; b1 <= 2; b1++ {
+			for a2 := 0; a2 <= 1; a2++ {
+				for b2 := 0; b2 <= 2; b2++ {
+					for again := 0; again < 2; again++ {
+						in := wInput{NReps: 2, NAuthors: 2, Quiesce: true}
+						add := func(x wAction) { in.Actions = append(in.Actions, x) }
+						add(wAction{K: "new", R: 0, Packs: []wPack{{0, 1}}})
+						add(wAction{K: "push", R: 0})
+						add(wAction{K: "pull", R: 1})
+						for i := 0; i < a1; i++ {
+							add(wAction{K: "edit", R: 0, Packs: []wPack{{0, 1}}, Kinds: []int{i}})
+						}
+						for i := 0; i < b1; i++ {
+							add(wAction{K: "edit", R: 1, Packs: []wPack{{1, 1}}, Kinds: []int{i + 2}})
+						}
+						add(wAction{K: "push", R: 1})
+						add(wAction{K: "pull", R: 0}) // replica 0 writes a merge commit and does not push it
+						for i := 0; i < a2; i++ {
+							add(wAction{K: "edit", R: 0, Packs: []wPack{{0, 1}}, Kinds: []int{i + 1}})
+						}
+						for i := 0; i < b2; i++ {
+							add(wAction{K: "edit", R: 1, Packs: []wPack{{1, 1}}, Kinds: []int{i + 3}})
+						}
+						if b2 > 0 {
+							add(wAction{K: "push", R: 1})
+						}
+						add(wAction{K: "pull", R: 0})
+						if again == 1 {
+							add(wAction{K: "pull", R: 0})
+						}
+						res = append(res, in)
+					}
+				}
+			}
+		}
+	}
+	return res
+}
+
 type worldDriver struct{ name string }
 
 func init() {
@@ -885,7 +929,7 @@ func init() {
 
 func (d worldDriver) Gen(r *Rand, tier string) []json.RawMessage {
 	var res []json.RawMessage
-	shapes := forkShapes()
+	shapes := append(forkShapes(), repullShapes()...)
 	nrand := 60
 	maxA := 25
 	if tier == "thorough" {
